@@ -31,7 +31,8 @@ EXTENDS Naturals, Sequences, FiniteSets, TLC
 CONSTANTS Mechs,     \* subset of {"SCRAM", "DIGEST", "PLAIN", "HT"}
           Versions,  \* subset of {1, 2}: RFC 6120 SASL, XEP-0388 SASL 2
           MaxHist,   \* bound on the number of server elements of a behaviour
-          MaxPost    \* server elements explored after the exchange has ended
+          MaxPost,   \* server elements explored after the exchange has ended
+          PostAll    \* TRUE: every payload is tried after the end; FALSE: a representative subset (quick export)
 
 VARIABLES mech, ver,
           step,      \* the mechanism object's step counter (1 = initial response sent)
@@ -85,10 +86,15 @@ ChallengePayloads(m) ==
     CASE m = "SCRAM"  -> SFVariants \cup FINVariants \cup {Empty}
       [] m = "DIGEST" -> DCVariants \cup RSPVariants \cup {Empty}
       [] OTHER        -> {Empty, Garbage}
-SuccessPayloads(m) ==
-    CASE m = "SCRAM"  -> FINVariants \cup {NoData}
-      [] m = "DIGEST" -> RSPVariants \cup {NoData}
-      [] OTHER        -> {NoData, Garbage}
+\* the data carried by <success/> (SASL 1: its text, SASL 2: <additional-data/>) ranges over the whole term
+\* universe of the mechanism at every step: a server may put a server-first, a challenge, a proof, nothing
+\* or garbage there (a well-formed server-first in an early success must not be mistaken for a proof)
+SuccessPayloads(m) == ChallengePayloads(m) \cup {NoData, Garbage}
+
+\* after the end nothing depends on the payload any more (handleElement returns Rejected): the quick export
+\* tries the honest messages, no data and empty data only
+PostPayloads == {NoData, Empty, SFHonest, P("FIN", "right", "", ""), P("DC", "ok", "auth", ""), P("RSP", "right", "", "")}
+PostOK(p) == result = "Pending" \/ PostAll \/ p \in PostPayloads
 
 ValidSF(p) == p.t = "SF" /\ p.x = "ext" /\ p.y = "ok" /\ p.z = "ok"
 ValidDC(p) == p.t = "DC" /\ p.x = "ok" /\ p.y \in {"auth", "none", "multi"}
@@ -134,7 +140,7 @@ Ghosts(p) == /\ proved' = (proved \/ Presents(p))
 
 (* --- <challenge/> ---------------------------------------------------------------- *)
 Challenge(p) ==
-    /\ Enabled /\ p \in ChallengePayloads(mech)
+    /\ Enabled /\ p \in ChallengePayloads(mech) /\ PostOK(p)
     /\ Log("Challenge", p)
     /\ IF result # "Pending" THEN Ignored
        ELSE /\ Ghosts(p)
@@ -152,14 +158,15 @@ Challenge(p) ==
 (* --- <success/> ------------------------------------------------------------------ *)
 \* SCRAM: only after the server signature has been verified, which may happen right here
 \* (RFC 6120 6.3.10 / XEP-0388 <additional-data/>: the server-final message travels in the success element).
-\* DIGEST-MD5: an rspauth carried by the success element is checked; PLAIN / HT: nothing to check.
+\* DIGEST-MD5: non-empty data carried by the success element after the response must be the right rspauth;
+\* PLAIN / HT: nothing to check.
 Accepts(p) ==
     CASE mech = "SCRAM"  -> verified \/ (step = 2 /\ p.t = "FIN" /\ SigTerm(p, sf) = ExpectedSig)
-      [] mech = "DIGEST" -> ~(step = 2 /\ p.t = "RSP" /\ RspTerm(p, sf) # ExpectedRsp)
+      [] mech = "DIGEST" -> ~(step = 2 /\ p.t \notin {"NONE", "EMPTY"} /\ ~(p.t = "RSP" /\ RspTerm(p, sf) = ExpectedRsp))
       [] OTHER           -> TRUE
 
 Success(p) ==
-    /\ Enabled /\ p \in SuccessPayloads(mech)
+    /\ Enabled /\ p \in SuccessPayloads(mech) /\ PostOK(p)
     /\ Log("Success", p)
     /\ IF result # "Pending" THEN Ignored
        ELSE /\ Ghosts(p)
